@@ -95,6 +95,14 @@ def make_traj(rng, n, cls, mode, stamped=True, twin=False):
     def build():
         if mode == "xyzq":
             return PoseTrajectory3D(p.copy(), q.copy(), t.copy()) if stamped else PosePath3D(p.copy(), q.copy())
+        if mode == "all3":
+            # every representation handed over (positions, quaternions and the pose matrices that
+            # the caller computed with its own conversion): each one is kept as given
+            poses = [rm.se3(rm.rot_from_quat_wxyz(qq), pp) for qq, pp in zip(q, p)]
+            obj = PoseTrajectory3D(p.copy(), q.copy(), t.copy(), poses_se3=poses) if stamped else \
+                PosePath3D(p.copy(), q.copy(), poses_se3=poses)
+            obj._vmon_supplied_T = np.array([P.copy() for P in poses])
+            return obj
         poses = [rm.se3(rm.rot_from_quat_wxyz(qq), pp) for qq, pp in zip(q, p)]
         return PoseTrajectory3D(poses_se3=poses, timestamps=t.copy()) if stamped else PosePath3D(poses_se3=poses)
 
@@ -121,7 +129,7 @@ def k_text(run, case, rng, work):
     cls = case.get("cls") or VALUE_CLASSES[rng.integers(len(VALUE_CLASSES))]
     nmax = {"quick": 200, "thorough": 3000}[run.tier]
     n = int(case.get("n") or (rng.integers(1, 6) if rng.random() < .3 else rng.integers(1, nmax + 1)))
-    mode = "se3" if rng.random() < .5 else "xyzq"
+    mode = ["se3", "xyzq", "se3", "xyzq", "all3"][rng.integers(5)]
     tr, tw = make_traj(rng, n, cls, mode, stamped=(fmt == "tum"), twin=True)
     gen.age(rng, tr)  # the written object has an arbitrary (partial) cache state
     wt, rt, label, special = path_variant(rng, work, "t.%s" % fmt)
@@ -131,6 +139,8 @@ def k_text(run, case, rng, work):
         given["q"] = np.array(tw.orientations_quat_wxyz, dtype=float).copy()
     else:
         given["T"] = np.array([np.array(P, dtype=float)[:3, :] for P in tw.poses_se3])
+        if hasattr(tw, "_vmon_supplied_T"):
+            given["T"] = tw._vmon_supplied_T[:, :3, :]  # the matrices as handed to the constructor
     writer = fi.write_tum_trajectory_file if fmt == "tum" else fi.write_kitti_poses_file
     reader = fi.read_tum_trajectory_file if fmt == "tum" else fi.read_kitti_poses_file
     history = "fresh path"
